@@ -454,3 +454,18 @@ def consumer_entries_obligations(ctx, which=("QEXT", "MDOTINIT", "TOUTINIT", "FL
 def consumer_entries(ctx):
     ctx.assume("A1", "A4", "A6")
     consumer_entries_obligations(ctx, ("QEXT", "MDOTINIT", "TOUTINIT"))
+
+
+# ---------------------------------------------------------------------------------------------
+# the heat-duty algebra rests on the thermal branch equation: both kernels, the numpy and the numba one (shared with C10)
+
+@unit("C11", "thermal_kernel/numpy", functions=["pandapipes.pf.derivative_toolbox:derivatives_thermal_np"], engine="E2")
+def thermal_kernel_np(ctx):
+    import contracts.C10 as C10
+    C10._kernel(ctx, C10.TB + ":derivatives_thermal_np")
+
+
+@unit("C11", "thermal_kernel/numba", functions=["pandapipes.pf.derivative_toolbox_numba:derivatives_thermal_numba"], engine="E2")
+def thermal_kernel_nb(ctx):
+    import contracts.C10 as C10
+    C10._kernel(ctx, C10.TBN + ":derivatives_thermal_numba")
